@@ -281,6 +281,38 @@ fn check_shape(ctx: &Ctx, shape: (usize, usize, usize), special: Option<(usize, 
         }
         std::fs::remove_file(&p).ok();
     }
+    // ---- other memory layouts of the same logical array (column-major; axis-permuted view made owned)
+    if special.is_none() && c * o * d > 0 {
+        use ndarray::ShapeBuilder;
+        let colmajor = Array3::<f64>::from_shape_fn((c, o, d).f(), |(i, j, k)| cell(i, j, k));
+        let permuted = Array3::<f64>::from_shape_fn((o, c, d), |(j, i, k)| cell(i, j, k)).permuted_axes([1, 0, 2]);
+        for (lname, arr) in [("column-major", &colmajor), ("permuted-axes", &permuted)] {
+            let p = format!("{dir}/{tag}-{lname}.csv");
+            if run_save(ctx, "save_csv<f64>(layout)", &case, || save_csv(arr, &p).map_err(|e| e.to_string())) == Some(true) {
+                match read_csv(&p, false) {
+                    Ok(t) => compare(ctx, &format!("save_csv<f64>({lname})"), &t, ["chain", "observation"], shape, &v64, true, &case),
+                    Err(e) => ctx.violation(Violation::new("C17:save_csv(layout):unreadable", e, case.clone())),
+                }
+            }
+            std::fs::remove_file(&p).ok();
+            let p = format!("{dir}/{tag}-{lname}.arrow");
+            if run_save(ctx, "save_arrow<f64>(layout)", &case, || save_arrow(arr, &p).map_err(|e| e.to_string())) == Some(true) {
+                match read_arrow(&p) {
+                    Ok(t) => compare(ctx, &format!("save_arrow<f64>({lname})"), &t, ["chain", "observation"], shape, &v64, false, &case),
+                    Err(e) => ctx.violation(Violation::new("C17:save_arrow(layout):unreadable", e, case.clone())),
+                }
+            }
+            std::fs::remove_file(&p).ok();
+            let p = format!("{dir}/{tag}-{lname}.parquet");
+            if run_save(ctx, "save_parquet<f64>(layout)", &case, || save_parquet(arr, &p).map_err(|e| e.to_string())) == Some(true) {
+                match read_parquet(&p) {
+                    Ok(t) => compare(ctx, &format!("save_parquet<f64>({lname})"), &t, ["chain", "observation"], shape, &v64, false, &case),
+                    Err(e) => ctx.violation(Violation::new("C17:save_parquet(layout):unreadable", e, case.clone())),
+                }
+            }
+            std::fs::remove_file(&p).ok();
+        }
+    }
     // ---- tensor entry points (f32 and f64 NdArray backends)
     let flat32: Vec<f32> = (0..c * o * d).map(|idx| cell(idx / (o * d), (idx / d.max(1)) % o.max(1), idx % d.max(1)) as f32).collect();
     let dev = Default::default();
@@ -368,6 +400,68 @@ fn error_paths(ctx: &Ctx) {
     }
 }
 
+/// Histories of two saves to the SAME path (larger then smaller export, and the reverse): the file must hold
+/// exactly the second export.
+fn overwrite_histories(ctx: &Ctx) {
+    let dir = scratch();
+    let shapes = [((4usize, 9usize, 3usize), (1usize, 2usize, 3usize)), ((1, 2, 3), (4, 9, 3)), ((3, 5, 2), (3, 5, 1)), ((2, 2, 2), (0, 2, 2))];
+    for (first, second) in shapes {
+        let mkarr = |s: (usize, usize, usize), off: f64| Array3::<f64>::from_shape_fn(s, |(i, j, k)| coded(i, j, k) + off);
+        let (a1, a2) = (mkarr(first, 0.0), mkarr(second, 0.5));
+        let v2 = |i: usize, j: usize, k: usize| coded(i, j, k) + 0.5;
+        let v2f = |i: usize, j: usize, k: usize| ((coded(i, j, k) + 0.5) as f32) as f64;
+        let case = json!({"overwrite": {"first": [first.0, first.1, first.2], "second": [second.0, second.1, second.2]}});
+        ctx.state(hash_str(&case.to_string()));
+        let mkt = |s: (usize, usize, usize), off: f64| {
+            let flat: Vec<f32> = (0..s.0 * s.1 * s.2).map(|idx| (coded(idx / (s.1 * s.2).max(1), (idx / s.2.max(1)) % s.1.max(1), idx % s.2.max(1)) + off) as f32).collect();
+            Tensor::<NdArray<f32>, 3>::from_data(TensorData::new(flat, [s.0, s.1, s.2]), &Default::default())
+        };
+        // csv
+        let p = format!("{dir}/ow-{}-{}.csv", first.0, second.0);
+        if run_save(ctx, "save_csv(overwrite)", &case, || save_csv(&a1, &p).and_then(|_| save_csv(&a2, &p)).map_err(|e| e.to_string())) == Some(true) {
+            match read_csv(&p, false) {
+                Ok(t) => compare(ctx, "save_csv(second export over an existing file)", &t, ["chain", "observation"], second, &v2, true, &case),
+                Err(e) => ctx.violation(Violation::new("C17:save_csv(overwrite):unreadable", format!("after saving a {first:?} export and then a {second:?} export to the same path the file is not a valid CSV: {e}"), case.clone())),
+            }
+        }
+        std::fs::remove_file(&p).ok();
+        if let (Ok(t1), Ok(t2)) = (catch(|| mkt(first, 0.0)), catch(|| mkt(second, 0.5))) {
+            let p = format!("{dir}/ow-{}-{}-t.csv", first.0, second.0);
+            if run_save(ctx, "save_csv_tensor(overwrite)", &case, || save_csv_tensor(t1.clone(), &p).and_then(|_| save_csv_tensor(t2.clone(), &p)).map_err(|e| e.to_string())) == Some(true) {
+                match read_csv(&p, true) {
+                    Ok(t) => compare(ctx, "save_csv_tensor(second export over an existing file)", &t, ["chain", "observation"], second, &v2f, true, &case),
+                    Err(e) => ctx.violation(Violation::new("C17:save_csv_tensor(overwrite):unreadable", e, case.clone())),
+                }
+            }
+            std::fs::remove_file(&p).ok();
+            let p = format!("{dir}/ow-{}-{}-t.parquet", first.0, second.0);
+            if run_save(ctx, "save_parquet_tensor(overwrite)", &case, || save_parquet_tensor::<NdArray<f32>, _, f32>(&t1, &p).and_then(|_| save_parquet_tensor::<NdArray<f32>, _, f32>(&t2, &p)).map_err(|e| e.to_string())) == Some(true) {
+                match read_parquet(&p) {
+                    Ok(t) => compare(ctx, "save_parquet_tensor(second export over an existing file)", &t, ["observation", "chain"], second, &v2f, false, &case),
+                    Err(e) => ctx.violation(Violation::new("C17:save_parquet_tensor(overwrite):unreadable", e, case.clone())),
+                }
+            }
+            std::fs::remove_file(&p).ok();
+        }
+        let p = format!("{dir}/ow-{}-{}.arrow", first.0, second.0);
+        if run_save(ctx, "save_arrow(overwrite)", &case, || save_arrow(&a1, &p).and_then(|_| save_arrow(&a2, &p)).map_err(|e| e.to_string())) == Some(true) {
+            match read_arrow(&p) {
+                Ok(t) => compare(ctx, "save_arrow(second export over an existing file)", &t, ["chain", "observation"], second, &v2, false, &case),
+                Err(e) => ctx.violation(Violation::new("C17:save_arrow(overwrite):unreadable", e, case.clone())),
+            }
+        }
+        std::fs::remove_file(&p).ok();
+        let p = format!("{dir}/ow-{}-{}.parquet", first.0, second.0);
+        if run_save(ctx, "save_parquet(overwrite)", &case, || save_parquet(&a1, &p).and_then(|_| save_parquet(&a2, &p)).map_err(|e| e.to_string())) == Some(true) {
+            match read_parquet(&p) {
+                Ok(t) => compare(ctx, "save_parquet(second export over an existing file)", &t, ["chain", "observation"], second, &v2, false, &case),
+                Err(e) => ctx.violation(Violation::new("C17:save_parquet(overwrite):unreadable", e, case.clone())),
+            }
+        }
+        std::fs::remove_file(&p).ok();
+    }
+}
+
 fn specials() -> Vec<f64> {
     vec![0.0, -0.0, f32::MIN_POSITIVE as f64 / 4.0, -(f32::MIN_POSITIVE as f64) / 8.0, f32::MAX as f64, -(f32::MAX as f64), f64::INFINITY, f64::NEG_INFINITY, f64::NAN, 1.0 / 3.0, f64::MAX, f64::MIN_POSITIVE / 2.0, 1e-320]
 }
@@ -401,6 +495,7 @@ pub fn run(ctx: &Ctx) {
     ctx.extra("special_value_cases", json!(jobs.len()));
     jobs.par_iter().for_each(|(s, pos, v)| check_shape(ctx, *s, Some((*pos, *v))));
     error_paths(ctx);
+    overwrite_histories(ctx);
     std::fs::remove_dir_all(scratch()).ok();
     ctx.assume("read-only-file error path is not exercised (the harness runs as root, for whom the file is writable); a save that returns Err is counted, not a violation");
     if ctx.outcome_count("save_parquet_tensor<f32>:roundtrip-ok") == 0 || ctx.outcome_count("save_csv<f64>:roundtrip-ok") == 0 {
@@ -411,6 +506,11 @@ pub fn run(ctx: &Ctx) {
 pub fn check_case(ctx: &Ctx, case: &Value) {
     if case.get("error_path").is_some() {
         error_paths(ctx);
+        return;
+    }
+    if case.get("overwrite").is_some() {
+        overwrite_histories(ctx);
+        std::fs::remove_dir_all(scratch()).ok();
         return;
     }
     let s = &case["shape"];
